@@ -3,8 +3,9 @@ from vlib import g1check
 
 PROPERTY = "C08"
 LEVEL = "exploration"
-RULE = ("G1 with-programs with 16 `as`-target forms (none, name, attribute, nested attribute, subscript by constant / by "
-        "name, positional call then subscript, tuple, list, starred, starred-middle, nested unpacking; unsupported: walrus "
+RULE = ("G1 with-programs with 22 `as`-target forms (none, local / global name, attribute, nested attribute, subscript by "
+        "constant / by name, chained subscripts, subscript of an attribute, positional calls (with arguments) then subscript, "
+        "tuple, list, tuple of attribute and subscript, starred first / last / middle, nested unpacking; unsupported: walrus "
         "or arithmetic in a subscript, keyword call, slice) x 3 layouts (one line, manager call spread over lines, "
         "parenthesised) x 1-4 items, observed suspended and running on CPython 3.9-3.12; every reported context is matched to "
         "its item through obj. Oracle: the renderer's record of the with-keyword line and the target text; varname must be "
